@@ -1,5 +1,5 @@
 (** C20 — regular-expression matching agrees with SRFI 115: property theorems only. *)
-From ChibiV Require Import C20.Re C20.Proofs.
+From ChibiV Require Import C20.Re C20.Proofs C20.FoldIdem C20.SubsNest.
 
 (** the derivative of a core expression denotes the left quotient of its language *)
 Theorem deriv_correct : forall r p c s n, LR (deriv p c r) (Some c) s n <-> LR r p (c :: s) n.
@@ -45,6 +45,18 @@ Theorem submatch_span_check_sound : forall r s spans, check_spans r s spans = tr
 Proof. exact check_spans_sound. Qed.
 Print Assumptions submatch_span_check_sound.
 
+(** ... and exact: it accepts every valid set of spans (so the check raises no alarm on valid reports) *)
+Theorem submatch_span_check_complete : forall r s spans, spans_valid r s spans -> check_spans r s spans = true.
+Proof. exact check_spans_complete. Qed.
+Print Assumptions submatch_span_check_complete.
+
+(** the enclosing submatch that [check_spans] requires submatch n+1 to lie in is the whole match or a submatch
+    with a smaller number (the opening parenthesis of an enclosing submatch comes first) *)
+Theorem submatch_nesting_outside_in : forall r n c body a,
+  nth_error (subs false 0 false 1 r) n = Some (c, body, a) -> (a <= n)%nat.
+Proof. exact subs_enclosing_earlier. Qed.
+Print Assumptions submatch_nesting_outside_in.
+
 (** regexp-fold: the model of the iteration always terminates within its fuel, every span it hands to kons
     delimits text in the language (in its true context inside the subject), and the first one is the
     leftmost-longest match of the whole subject *)
@@ -89,3 +101,9 @@ Theorem merge_preference_leftmost_longest : forall ng s1 e1 s2 e2 r1 r2,
    (s1 < s2)%nat \/ (s1 = s2 /\ if existsb (Nat.eqb 1) ng then (e1 <= e2)%nat else (e2 <= e1)%nat)).
 Proof. exact match_ge_leftmost_longest. Qed.
 Print Assumptions merge_preference_leftmost_longest.
+
+(** simple case folding is idempotent on all code points: [fold c] is the canonical representative of the
+    case-insensitive class of [c] (so [ci_eq true c (fold c)]) *)
+Theorem fold_idempotent : forall c, fold (fold c) = fold c.
+Proof. exact fold_idem. Qed.
+Print Assumptions fold_idempotent.
